@@ -65,7 +65,7 @@ Proof.
   - cbn [forallb] in H. apply andb_true_iff in H. destruct H as [Hl _].
     destruct (clean_line_parts l Hl) as [Nl [_ [[c [t [E Hc]]] [p [z [E2 [Hz [Hz1 _]]]]]]]].
     cbn [join]. split; [exists c, t; auto|]. split; [exists p, z; auto|].
-    unfold lacks. apply (forallb_impl (fun x => negb (is_linebreak x))); [|exact Nl].
+    unfold lacks. apply (forallb_impl (fun x => negb ((x =? 10) || (x =? 13)))); [|exact Nl].
     intros x Hx. destruct (x =? 10) eqn:E0; [|reflexivity]. apply Z.eqb_eq in E0. subst x. discriminate Hx.
   - cbn [forallb] in H. apply andb_true_iff in H. destruct H as [Hl Hrest].
     destruct (clean_line_parts l Hl) as [Nl [_ [[c [t [E Hc]]] _]]].
@@ -76,7 +76,7 @@ Proof.
     + exists (l ++ [124] ++ p), z. rewrite E2. rewrite <- !app_assoc. split; [reflexivity|]. split; assumption.
     + rewrite !lacks_app. rewrite L10.
       assert (Ll : lacks 10 l = true).
-      { unfold lacks. apply (forallb_impl (fun x => negb (is_linebreak x))); [|exact Nl].
+      { unfold lacks. apply (forallb_impl (fun x => negb ((x =? 10) || (x =? 13)))); [|exact Nl].
         intros x Hx. destruct (x =? 10) eqn:E0; [|reflexivity]. apply Z.eqb_eq in E0. subst x. discriminate Hx. }
       rewrite Ll. reflexivity.
 Qed.
